@@ -312,6 +312,17 @@ impl<'a> Gen<'a> {
                 kind: SigKind::Bidir(d),
             });
         }
+        // now and then a plain output that is literally named like the `_out` column of a
+        // bidirectional signal: one header column is then the expected column of both
+        if self.r.chance(40, 1000) {
+            if let Some(b) = sigs.iter().find(|s| matches!(s.kind, SigKind::Bidir(_))).map(|s| s.name.clone()) {
+                let name = format!("{b}_out");
+                if !sigs.iter().any(|s| s.name == name) {
+                    let bits = self.width(true);
+                    sigs.push(Sig { name, bits, kind: SigKind::Out });
+                }
+            }
+        }
         if self.cfg.shuffle_signals {
             self.r.shuffle(&mut sigs);
         }
@@ -386,6 +397,17 @@ impl<'a> Gen<'a> {
                 });
             }
         }
+        // a name can be wanted twice (a plain output named like a bidirectional signal's `_out`
+        // column): the header has it once
+        let mut seen: Vec<String> = vec![];
+        cols.retain(|c| {
+            if seen.contains(&c.name) {
+                false
+            } else {
+                seen.push(c.name.clone());
+                true
+            }
+        });
         if cols.is_empty() {
             // at least one column: take the first signal
             let s = &self.sigs[0];
